@@ -298,7 +298,14 @@ Record pkg := { p_path : str; p_lvl : lvl; p_all : bool;
                 p_file : str;                                 (* file of the unlisted interfaces *)
                 p_rest_ok : bool;
                 p_ifaces : list (str * ifspec) }.             (* source order *)
-Record world := { w_root : lvl; w_pkgs : list pkg; w_env : env }.
+(* Which config supplies the FILE-level template-data handed to the template and validated
+   first.  [FLPackage]: the package config (root merged under package) - the pinned code,
+   `packageConfig.Config` in RootApp.Run.  [FLFirstMock]: the config of the first mock added
+   to the file (the behaviour if file-level parameters are taken from the mocks of the file,
+   cf. fixes/c08-file-level-config.diff).  The harness observes which one the tree under test
+   uses (the probe template prints .TemplateData) and passes it here. *)
+Inductive fl_mode := FLPackage | FLFirstMock.
+Record world := { w_root : lvl; w_pkgs : list pkg; w_env : env; w_fl : fl_mode }.
 
 Definition first_some {A} (a b : option A) : option A := match a with Some _ => a | None => b end.
 Definition eff_template (r p : lvl) : str :=
@@ -331,13 +338,20 @@ Fixpoint group_add {X} (k : str) (x : X) (g : list (str * list X)) : list (str *
 Definition group {X} (l : list (str * X)) : list (str * list X) :=
   fold_left (fun g kx => group_add (fst kx) (snd kx) g) l [].
 
-Definition files_of_pkg (r : lvl) (p : pkg) : list filecfg :=
+Definition file_level_data (m : fl_mode) (pd : obj) (members : list (str * obj)) : obj :=
+  match m, members with
+  | FLFirstMock, (_, d) :: _ => d
+  | _, _ => pd
+  end.
+
+Definition files_of_pkg (m : fl_mode) (r : lvl) (p : pkg) : list filecfg :=
   let pd := pkg_data r (p_lvl p) in
   map (fun g => {| f_path := fst g;
                    f_template := eff_template r (p_lvl p);
                    f_schema := eff_schema r (p_lvl p);
                    f_require := eff_require r (p_lvl p);
-                   f_data := pd; f_ifaces := snd g; f_rest_ok := p_rest_ok p |})
+                   f_data := file_level_data m pd (snd g); f_ifaces := snd g;
+                   f_rest_ok := p_rest_ok p |})
       (group (flat_map (mocks_of_iface pd (p_all p) (p_file p)) (p_ifaces p))).
 
 Fixpoint str_nodup (l : list str) : bool :=
@@ -345,7 +359,7 @@ Fixpoint str_nodup (l : list str) : bool :=
 
 (* None: two packages map to one output file ("must come from the same source package") *)
 Definition world_files (w : world) : option (list filecfg) :=
-  let fs := flat_map (files_of_pkg (w_root w)) (w_pkgs w) in
+  let fs := flat_map (files_of_pkg (w_fl w) (w_root w)) (w_pkgs w) in
   if str_nodup (map f_path fs) then Some fs else None.
 
 (* builtin schemas of the pinned tree (internal/mock_*.templ.schema.json) *)
